@@ -1641,3 +1641,123 @@ def gic_ok(ex, result, name, real_wells, component_names, initial_volumes):
         for j in range(i):
             conj.append(z3.Not(zbool(unwrap_bool(ops.equals(ex, ks[i], ks[j])))))
     return mk_bool(z3.And(*conj)) if conj else True
+
+
+# ----------------------------------------------------------------------------- get_trough_component_names (C05 / C20)
+
+
+@spec
+def gtcn_rejects(ex, columns, column_names, initial_volumes):
+    """wrong number of names or volumes, or a name for an empty column"""
+    names, vols = column_names.concrete_items(), initial_volumes.concrete_items()
+    if len(names) != columns or len(vols) != columns:
+        return True
+    bad = [term(v, "real") == 0 for n, v in zip(names, vols) if n is not None]
+    return mk_bool(z3.Or(*bad)) if bad else False
+
+
+@spec
+def gtcn_ok(ex, result, name, columns, column_names, initial_volumes):
+    """keys are exactly the row-A well ids of the columns, in order; a filled column carries its given name, else
+    `<trough>.column_NN` (1-based, two digits) on a multi-column trough, else the trough's name; an empty column None"""
+    names, vols = column_names.concrete_items(), initial_volumes.concrete_items()
+    if len(result.items) != columns:
+        return False
+    conj = []
+    for c, ((k, val), given, v) in enumerate(zip(result.items, names, vols)):
+        ke = ops.equals(ex, k, WellV(0, c + 1))
+        if ke is not True:
+            return False
+        if given is not None:
+            want = given
+        elif columns > 1:
+            want = lib.join_str_parts(ex, [lib.format_value(ex, name, "", -1), f".column_{c + 1:02d}"])
+        else:
+            want = name
+        filled = term(v, "real") > 0
+        if val is None:
+            conj.append(z3.Not(filled) if given is None else z3.BoolVal(False))
+        else:
+            e = ops.equals(ex, val, want)
+            conj.append(z3.And(filled if given is None else z3.BoolVal(True), zbool(unwrap_bool(e))))
+    return mk_bool(z3.And(*conj)) if conj else True
+
+
+# ----------------------------------------------------------------------------- Trough constructor (C20 / C05)
+
+
+def _trough_cols(ex, columns, column_names, initial_volumes):
+    """[(given name or None, volume term)] per column; None if the argument shapes do not describe `columns` columns"""
+    if column_names is None:
+        names = [None] * columns
+    elif isinstance(column_names, (str, Sym)):
+        names = [column_names]
+    else:
+        names = column_names.concrete_items()
+    if isinstance(initial_volumes, SeqV):
+        vols = initial_volumes.concrete_items()
+    else:
+        vols = [initial_volumes] * columns
+    if len(names) != columns or len(vols) != columns:
+        return None
+    return list(zip(names, [term(v, "real") for v in vols]))
+
+
+@spec
+def trough_args_ok(ex, columns, column_names, initial_volumes, max_volume):
+    """one name slot and one finite volume in [0, max_volume] per column, names only for filled columns"""
+    cols = _trough_cols(ex, columns, column_names, initial_volumes)
+    if cols is None:
+        return False
+    conj = []
+    for given, v in cols:
+        conj.append(z3.And(v >= 0, v <= term(max_volume, "real")))
+        if given is not None:
+            conj.append(v != 0)
+    return mk_bool(z3.And(*conj)) if conj else True
+
+
+@spec
+def trough_volumes_ok(ex, L, columns, initial_volumes):
+    cols = _trough_cols(ex, columns, None, initial_volumes)
+    vols = L.fields["_volumes"]
+    if cols is None or not isinstance(vols, Arr2V):
+        return False
+    shape = ops.and_(ex, ops.compare(ex, "==", lib._symint(vols.rows), 1), ops.compare(ex, "==", lib._symint(vols.cols), columns))
+    conj = [zbool(unwrap_bool(shape))] + [term(vols.fn(0, c), "real") == v for c, (_, v) in enumerate(cols)]
+    return mk_bool(z3.And(*conj))
+
+
+@spec
+def trough_composition_ok(ex, L, name, columns, column_names, initial_volumes):
+    """every filled column consists 100 % of its component (given name, else `<trough>.column_NN` on a multi-column
+    trough, else the trough's name), empty columns of nothing, and there is no other component"""
+    cols = _trough_cols(ex, columns, column_names, initial_volumes)
+    comp = L.fields.get("_composition")
+    if cols is None or comp is None or not comp.is_concrete():
+        return False
+    conj = []
+    wants = []
+    for c, (given, v) in enumerate(cols):
+        if given is not None:
+            want = given
+        elif columns > 1:
+            want = lib.join_str_parts(ex, [lib.format_value(ex, name, "", -1), f".column_{c + 1:02d}"])
+        else:
+            want = name
+        wants.append(want)
+        is_want = [zbool(unwrap_bool(ops.equals(ex, k, want))) for k, _ in comp.items]
+        frac = [term(arr.fn(0, c), "real") for _, arr in comp.items]
+        filled = z3.And(z3.Or(*is_want) if is_want else z3.BoolVal(False), *[f == z3.If(e, z3.RealVal(1), z3.RealVal(0)) for e, f in zip(is_want, frac)])
+        empty = z3.And(*[f == 0 for f in frac]) if frac else z3.BoolVal(True)
+        conj.append(z3.If(v == 0, empty, filled))
+    for k, arr in comp.items:
+        if not isinstance(arr, Arr2V):
+            return False
+        conj.append(zbool(unwrap_bool(ops.and_(ex, ops.compare(ex, "==", lib._symint(arr.rows), 1), ops.compare(ex, "==", lib._symint(arr.cols), columns)))))
+        conj.append(z3.Or(*[z3.And(v != 0, zbool(unwrap_bool(ops.equals(ex, k, w)))) for (_, v), w in zip(cols, wants)]))
+    ks = [k for k, _ in comp.items]
+    for i in range(len(ks)):
+        for j in range(i):
+            conj.append(z3.Not(zbool(unwrap_bool(ops.equals(ex, ks[i], ks[j])))))
+    return mk_bool(z3.And(*conj)) if conj else True
